@@ -311,6 +311,16 @@ def quantified_pairwise():
     return _QUANT
 
 
+def reset_caches():
+    """drop the per-term caches (they keep every z3 term alive): called between contracts to bound memory"""
+    for name in ('_COLLECT', '_AX', '_MULS', '_TZS', '_KEEP'):
+        c = globals().get(name)
+        if isinstance(c, dict):
+            c.clear()
+        elif isinstance(c, list):
+            del c[:]
+
+
 def instantiate(formulas, rounds: int = 2, heavy: bool = True, quant=None):
     """Ground axiom instances for the pow2/bl terms occurring in `formulas` (cached per term)."""
     import os as _os
